@@ -1,9 +1,13 @@
 (* C20 - check functions evaluated by vm_compute in the correspondence files
    (build/cases/C20/*.v): the observable behaviour recorded from the real pyatv code is
    compared with the PrimFloat instance of the model, both through the generated trees
-   (Gen.v) and through the hand-written functions (Model.v).  No proofs. *)
-From Coq Require Import ZArith QArith List Bool PrimFloat.
-From PV Require Import Common.Cases C20.Model C20.Gen.
+   (Gen.v) and through the hand-written functions (Model.v), AND with the Flocq binary64
+   instance DB (the one proved to refine the rounded reals in LinkB.v), bit for bit.
+   Prim2SF (Coq.Floats.FloatOps, plain Gallina over the primitives) is used only here, to turn a
+   float literal into its sign/mantissa/exponent triple.  No proofs. *)
+From Coq Require Import ZArith QArith List Bool PrimFloat FloatOps.
+From Flocq Require Import BinarySingleNaN.
+From PV Require Import Common.Cases C20.Model C20.ModelB C20.Gen.
 Import ListNotations.
 
 Inductive fn := FMapRange | FPct | FDbfs | FFacRead | FFacWrite
@@ -37,6 +41,44 @@ Definition resQ_same (a b : res Q) : bool :=
   | _, _ => false
   end.
 
+(* primitive float literal -> Flocq binary64 value with the same bits *)
+Definition toB (x : float) : bf := of_bits (Prim2SF x).
+
+Definition resB_same (a : res bf) (b : res float) : bool :=
+  match a, b with
+  | Ok x, Ok y => sf_same (bits x) (Prim2SF y)
+  | Raise e, Raise f => exn_eqb e f
+  | _, _ => false
+  end.
+
+Definition eventB_same (a : @event DB) (b : @event DF) : bool :=
+  match a, b with
+  | Ret x, Ret y | Fwd x, Fwd y | Dev x, Dev y | Echo x, Echo y => sf_same (bits x) (Prim2SF y)
+  | Exc e, Exc f | Swallowed e, Swallowed f => exn_eqb e f
+  | Key, Key => true
+  | Push o n, Push o' n' => sf_same (bits o) (Prim2SF o') && sf_same (bits n) (Prim2SF n')
+  | _, _ => false
+  end.
+
+Definition ropB (o : @rop DF) : @rop DB :=
+  match o with
+  | RSet x => @RSet DB (toB x) | RReport x => @RReport DB (toB x) | RInject x => @RInject DB (toB x)
+  | RUp => @RUp DB | RDown => @RDown DB | RRead => @RRead DB | RPump => @RPump DB
+  end.
+
+Definition mopB (o : @mop DF) : @mop DB :=
+  match o with
+  | MSet x => @MSet DB (toB x) | MReport x => @MReport DB (toB x)
+  | MUp => @MUp DB | MDown => @MDown DB | MRead => @MRead DB
+  end.
+
+Fixpoint list_beq2 {A B} (f : A -> B -> bool) (a : list A) (b : list B) : bool :=
+  match a, b with
+  | [], [] => true
+  | x :: a', y :: b' => f x y && list_beq2 f a' b'
+  | _, _ => false
+  end.
+
 Inductive ccase :=
 | CFun (f : fn) (args : list float) (r : res float)      (* real function on binary64 *)
 | CMapQ (args : list Q) (r : res Q)                      (* real map_range on fractions.Fraction *)
@@ -47,6 +89,7 @@ Inductive ccase :=
 Definition check_case (c : ccase) : bool :=
   match c with
   | CFun f args r => res_same (run DF (tree f) args) r && res_same (hand f args) r
+                     && resB_same (run DB (tree f) (map toB args)) r
   | CMapQ args r =>
       resQ_same (run DQ g_map_range args) r &&
       match args with
@@ -55,6 +98,30 @@ Definition check_case (c : ccase) : bool :=
       end
   | CGuard fv x acc => Bool.eqb (in_range DF x) acc && Bool.eqb (guard_fval fv) acc
   | CRaop ops obs => list_beq (list_beq event_same) (rrun DF (rinit DF) ops) obs
+                     && list_beq2 (list_beq2 eventB_same) (rrun DB (rinit DB) (map ropB ops)) obs
   | CMrp a r v0 ops obs =>
       list_beq (list_beq event_same) (mrun DF (Build_mstate DF v0 a r) ops) obs
+      && list_beq2 (list_beq2 eventB_same) (mrun DB (Build_mstate DB (toB v0) a r) (map mopB ops)) obs
   end.
+
+(* monomorphic constructors for the generated case files *)
+Definition eRet (x : float) : @event DF := @Ret DF x.
+Definition eExc (e : exn) : @event DF := @Exc DF e.
+Definition eFwd (x : float) : @event DF := @Fwd DF x.
+Definition eDev (x : float) : @event DF := @Dev DF x.
+Definition eEcho (x : float) : @event DF := @Echo DF x.
+Definition eKey : @event DF := @Key DF.
+Definition ePush (a b : float) : @event DF := @Push DF a b.
+Definition eSwallowed (e : exn) : @event DF := @Swallowed DF e.
+Definition rSet (x : float) : @rop DF := @RSet DF x.
+Definition rReport (x : float) : @rop DF := @RReport DF x.
+Definition rInject (x : float) : @rop DF := @RInject DF x.
+Definition rUp : @rop DF := @RUp DF.
+Definition rDown : @rop DF := @RDown DF.
+Definition rRead : @rop DF := @RRead DF.
+Definition rPump : @rop DF := @RPump DF.
+Definition mSet (x : float) : @mop DF := @MSet DF x.
+Definition mReport (x : float) : @mop DF := @MReport DF x.
+Definition mUp : @mop DF := @MUp DF.
+Definition mDown : @mop DF := @MDown DF.
+Definition mRead : @mop DF := @MRead DF.
